@@ -804,6 +804,68 @@ impl<T: Storage> RawNode<T> {
     }
 }
 
+/// Read-only view of the private fields of `RawNode` (verification builds only).
+#[cfg(tikv_raft_rs_verif)]
+#[allow(missing_docs)]
+#[derive(Clone, Debug, PartialEq)]
+pub struct VerifRawNodeView {
+    pub prev_leader_id: u64,
+    pub prev_state: StateRole,
+    pub prev_hs: HardState,
+    pub max_number: u64,
+    /// (number, last_entry, snapshot) per outstanding record, oldest first.
+    pub records: Vec<(u64, Option<(u64, u64)>, Option<(u64, u64)>)>,
+    pub commit_since_index: u64,
+}
+
+#[cfg(tikv_raft_rs_verif)]
+#[allow(missing_docs)]
+impl<T: Storage> RawNode<T> {
+    pub fn verif_from_parts(raft: Raft<T>, v: VerifRawNodeView) -> Self {
+        let mut records = VecDeque::new();
+        for (number, last_entry, snapshot) in v.records {
+            records.push_back(ReadyRecord {
+                number,
+                last_entry,
+                snapshot,
+            });
+        }
+        RawNode {
+            raft,
+            prev_ss: SoftState {
+                leader_id: v.prev_leader_id,
+                raft_state: v.prev_state,
+            },
+            prev_hs: v.prev_hs,
+            max_number: v.max_number,
+            records,
+            commit_since_index: v.commit_since_index,
+        }
+    }
+    pub fn verif_view(&self) -> VerifRawNodeView {
+        VerifRawNodeView {
+            prev_leader_id: self.prev_ss.leader_id,
+            prev_state: self.prev_ss.raft_state,
+            prev_hs: self.prev_hs.clone(),
+            max_number: self.max_number,
+            records: self
+                .records
+                .iter()
+                .map(|r| (r.number, r.last_entry, r.snapshot))
+                .collect(),
+            commit_since_index: self.commit_since_index,
+        }
+    }
+}
+
+#[cfg(tikv_raft_rs_verif)]
+#[allow(missing_docs)]
+impl Ready {
+    pub fn verif_is_persisted_msg(&self) -> bool {
+        self.is_persisted_msg
+    }
+}
+
 #[cfg(test)]
 mod test {
     use crate::eraftpb::MessageType;
